@@ -58,13 +58,21 @@ Translated ==
    <<"PutObject", "PreconditionFailed">>, <<"PutTagging", "NoSuchKey">>}
   \cup ({"CopyObject", "UploadPartCopy", "Transition"} \X {"NoSuchBucket", "NoSuchKey", "PreconditionFailed", "not implemented"})
 
-\* client result: err = error code as the client reports it, tr = it is a storage.Err* value
+\* Kinds that reach the wire as InternalError cannot be told apart by ANY client: never translated.
+Untranslatable(kind) == kind \in {"PartSequenceConflict", "InvalidUploadSequence"}
+\* How the client reports an error of kind `kind` of call `op`:
+\*   translated (tr = TRUE): a storage error value - the harness (pdrv.ErrKind) logs the model KIND;
+\*   untranslated: the SDK's API error - the harness logs the S3 error CODE the server sent (SrvCode).
+IsTranslated(op, kind, dev) ==
+  kind = "" \/ (~Untranslatable(kind) /\ (<<op, SrvCode(kind)>> \in Translated \/ "D-C38-errors-not-translated" \notin dev))
+CErrOf(op, kind, dev) ==
+  [err |-> IF IsTranslated(op, kind, dev) THEN kind ELSE SrvCode(kind), tr |-> IsTranslated(op, kind, dev),
+   vid |-> -1, dm |-> FALSE, uid |-> -1]
+\* client result of a forwarded call whose endpoint result is r
 CRes(c, r, dev) ==
-  LET code == SrvCode(r.err) IN
-  [err |-> code,
-   tr |-> r.err = "" \/ <<c.op, code>> \in Translated \/ "D-C38-errors-not-translated" \notin dev,
-   vid |-> IF c.op = "PutObject" /\ r.err = "" /\ "D-C38-put-no-version-id" \in dev THEN 0 ELSE r.vid,
-   dm |-> r.dm, uid |-> r.uid]
+  [CErrOf(c.op, r.err, dev) EXCEPT
+     !.vid = IF c.op = "PutObject" /\ r.err = "" /\ "D-C38-put-no-version-id" \in dev THEN 0 ELSE r.vid,
+     !.dm = r.dm, !.uid = r.uid]
 CErr(kind) == [err |-> kind, tr |-> TRUE, vid |-> -1, dm |-> FALSE, uid |-> -1]
 
 FwdC(c, dev) ==
@@ -94,10 +102,12 @@ TransViaCopy(St, c) ==
 \* (D-C38-notfound-as-nosuchbucket); any other status - 405 for a version id that names a delete marker - is not
 \* types.NotFound and is returned as the SDK's error (D-C38-errors-not-translated).
 Http404(kind) == kind \in {"NoSuchKey", "NoSuchBucket", "DeleteMarker"}
-NotFoundCode(kind, dev) == IF "D-C38-notfound-as-nosuchbucket" \in dev THEN "NoSuchBucket" ELSE SrvCode(kind)
+\* HEAD 404: with D-C38-notfound-as-nosuchbucket always ErrNoSuchBucket; the repaired code tells a current delete
+\* marker (header), a missing bucket (HeadBucket) and a missing key apart and returns the storage error value.
+\* Any other HEAD status goes the general way (translated or not).
 HeadErr(kind, dev) ==
-  IF Http404(kind) THEN [CErr(NotFoundCode(kind, dev)) EXCEPT !.tr = TRUE]
-  ELSE [CErr(SrvCode(kind)) EXCEPT !.tr = "D-C38-errors-not-translated" \notin dev]
+  IF Http404(kind) THEN CErr(IF "D-C38-notfound-as-nosuchbucket" \in dev THEN "NoSuchBucket" ELSE kind)
+  ELSE CErrOf("HeadObject", kind, dev)
 \* with D-C38-get-heads-current the HEAD is issued WITHOUT the version id (current version's metadata);
 \* the repaired code heads the requested version
 GetViaClient(St, c, dev) ==
@@ -105,7 +115,7 @@ GetViaClient(St, c, dev) ==
       req == GetObject(St, c.b, c.k, c.vid).r IN
   IF "D-C38-get-heads-current" \in dev
   THEN IF cur.err # "" THEN HeadErr(cur.err, dev)
-       ELSE IF req.err # "" THEN [CErr(SrvCode(req.err)) EXCEPT !.tr = "D-C38-errors-not-translated" \notin dev]
+       ELSE IF req.err # "" THEN CErrOf("GetObject", req.err, dev)
        ELSE [CErr("") EXCEPT !.vid = cur.vid]
   ELSE IF req.err # "" THEN HeadErr(req.err, dev)
        ELSE [CErr("") EXCEPT !.vid = req.vid]
@@ -119,7 +129,7 @@ IllegalSelfCopy(c) == c.op = "CopyObject" /\ c.sb = c.b /\ c.sk = c.k /\ c.mdir 
 SCApply(St, c) ==
   LET dev == St.dev
       exp(T) == IF "D-C38-expires-reserialised" \in dev THEN ExpMap(T) ELSE T IN
-  IF IllegalSelfCopy(c) THEN [s |-> St, r |-> [CErr("InvalidRequest") EXCEPT !.tr = FALSE]]
+  IF IllegalSelfCopy(c) THEN [s |-> St, r |-> [CErr("InvalidRequest") EXCEPT !.tr = FALSE]]   \* no storage error value exists for it
   ELSE IF c.op = "GetObject" THEN [s |-> St, r |-> GetViaClient(St, c, dev)]
   ELSE IF c.op = "AppendObject" /\ "D-C38-append-not-implemented" \in dev
   THEN [s |-> St, r |-> CErr("not implemented")]
@@ -128,13 +138,25 @@ SCApply(St, c) ==
   ELSE LET a == Apply(St, FwdC(c, dev)) IN [s |-> exp(a.s), r |-> CRes(c, a.r, dev)]
 
 \* what a transparent client returns for the same call on the same state
-Ideal(St, c) == LET a == Apply(St, c) IN
-                [s |-> a.s, r |-> [err |-> SrvCode(a.r.err), tr |-> TRUE, vid |-> a.r.vid, dm |-> a.r.dm, uid |-> a.r.uid]]
-\* C38 deviations whose branch this call takes
-CTakenAt(St, c) ==
+Ideal(St, c) == LET a == Apply(St, c) IN [s |-> a.s, r |-> CRes(c, a.r, {})]
+\* C38 deviations to which the difference between the client and a transparent client at this call is attributed.
+\* Judged in the context of all enabled deviations (switching the tag off changes the outcome); only when no
+\* single tag is decisive in context (two deviations each sufficient) the tags that matter in isolation are named.
+\* A call whose outcome equals the transparent one takes no deviation.
+CNeeded(St, c) ==
+  LET full == SCApply(St, c) IN
+  {t \in St.dev \cap CTags : LET o == SCApply([St EXCEPT !.dev = @ \ {t}], c) IN o.r # full.r \/ Strip(o.s) # Strip(full.s)}
+CAlone(St, c) ==
   {t \in St.dev \cap CTags :
      LET base == St.dev \ CTags
          d == SCApply([St EXCEPT !.dev = base \cup {t}], c)
          i == SCApply([St EXCEPT !.dev = base], c)
      IN d.r # i.r \/ Strip(d.s) # Strip(i.s)}
+CTakenAt(St, c) ==
+  LET full == SCApply(St, c)
+      none == SCApply([St EXCEPT !.dev = @ \ CTags], c) IN
+  IF full.r = none.r /\ Strip(full.s) = Strip(none.s) THEN {}
+  ELSE IF CNeeded(St, c) # {} THEN CNeeded(St, c) ELSE CAlone(St, c)
+\* every deviation that could matter for this call (used to try repaired variants of the code)
+CRelevant(St, c) == CNeeded(St, c) \cup CAlone(St, c)
 =============================================================================
